@@ -299,6 +299,35 @@ def check_handle_registry(ctx, prog, tag):
             ctx.ob("C16.T6.handle-registry-%s-site" % op, tag + g.path, False, "registry emptied by %s" % g.path, g.loc)
 
 
+
+def check_announced_lengths(ctx, prog, tag):
+    """T8 (after seed C16-7): a serializer that is told a length acts on it - serde_json writes `[]` at once when it is
+    told `Some(0)`, and the elements that follow make the text invalid.  Whatever the engine's own `Serialize`
+    implementations announce to `serialize_seq` / `serialize_map` / `serialize_tuple` is `None` or an exact length:
+    nothing in its computation is an iterator's `size_hint` (a lower bound) or arithmetic on a count."""
+    n = 0
+    for f in sorted(prog.fns.values(), key=lambda x: x.path):
+        if f.crate != "minijinja":
+            continue
+        for c in f.calls():
+            last = (c.path or c.name).split("::")[-1]
+            if last not in ("serialize_seq", "serialize_map", "serialize_tuple") or "ser::Serializer" not in (c.path or ""):
+                continue
+            if len(c.args) < 2:
+                continue
+            n += 1
+            lib = []
+            calls, leaves = flow.backward_calls(prog, f, c.args[1], library=lib)
+            bad = sorted({k.name.split("::")[-1] for k in calls + lib if k.name.split("::")[-1] in ("size_hint", "min", "max", "count")})
+            arith = [o for g_, o in leaves if o.kind == "bin"] + [o for o in flow.origins(f, c.args[1]) if o.kind == "bin"]
+            ctx.ob("C16.T8.announced-length-is-exact-or-absent", "%s%s|%s" % (tag, f.path.split("::")[-1] if f.kind != "closure" else f.path, last),
+                   not bad and not arith,
+                   "%s announces a length computed with %s to %s: a bound is not a length - told `Some(0)` serde_json closes "
+                   "the array before the elements are written (`[], 7, 8]`)" % (f.path, ", ".join(bad) or "arithmetic", last), f.where(c.bb))
+    if prog.has_fn("<minijinja::value::Value as serde_core::ser::Serialize>::serialize") or n:
+        ctx.floor("C16.T8 lengths announced to a serializer" + tag, n, 2)
+
+
 def run(ctx):
     ctx.explain("C16 (tojson HTML-safety clause only): structural filter rule on the closure that post-processes the "
                 "serialised JSON: the only returned safe string is a buffer written char by char, the default arm "
@@ -350,6 +379,7 @@ def run(ctx):
         check_scalar_tables(ctx, prog, tag)
         check_json_autoescape(ctx, prog, tag)
         check_handle_registry(ctx, prog, tag)
+        check_announced_lengths(ctx, prog, tag)
     # positive control
     cprog = ctx.controls
     sub = ctx.fresh()
